@@ -21,11 +21,13 @@ from vlib.core import run_cmd, VERIF
 from vlib.build import BuildError
 from tools.gen import stream as gen_stream
 from tools.gen import procstat as gen_procstat
+from tools.gen import net as gen_net
 from tools.gen.csrc import ExtractError
 
 sys.path.insert(0, os.path.join(VERIF, "harness", "C16"))
 import scen  # noqa: E402
 import plumb  # noqa: E402
+import netcorr  # noqa: E402
 
 THEOREMS = ["JanetModel.Props.C16." + t for t in (
     "write_delivers_all_in_order", "sendto_delivers_prefix", "read_at_most_n", "chunk_exact_unless_eof",
@@ -38,7 +40,16 @@ THEOREMS = ["JanetModel.Props.C16." + t for t in (
     "child_stdio_exact", "spawn_child_stdio_exact", "exFresh", "std_source_unmoved_loses_descriptor", "wait_once", "first_wait_suspends", "reaped_status_recorded",
     "close_closes_owned_once",
     # session 3: liveness under an explicit fairness hypothesis
-    "op_ends_within_fair_events", "every_op_completes_under_fairness", "recvfrom_one_message_per_call")]
+    "op_ends_within_fair_events", "every_op_completes_under_fairness", "recvfrom_one_message_per_call",
+    # session 4: socket callbacks of net.c (connect / accept / accept-loop), datagram send, :all
+    "connect_ends_exactly_at_first_nonquiet_event", "connect_unaffected_by_gc", "connect_completes_during_gc",
+    "accept_delivers_every_connection_once", "accept_unaffected_by_gc", "accept_loop_conserves", "accept_loop_serves_every_connection",
+    "accept_loop_edge_triggered_strands", "accept_waiting_has_edge", "accept_without_init_try_strands",
+    "sendto_one_datagram_per_call", "read_all_returns_everything_before_eof")]
+NET_CURRENT = ["JanetModel.Stream.NetCurrent." + t for t in (
+    "current_source_event_codes", "current_source_connect_quiet_on_gc", "current_source_connect_checks_on_readiness",
+    "connect_unaffected_by_gc_current", "current_source_accept_groups", "current_source_accept_loop_level_triggered")]
+NETDRIVE_CASES = {"quick": 30000, "thorough": 600000}
 PROC_CURRENT = ["JanetModel.Proc.Current." + t for t in (
     "current_source_waitpid_options", "exit_status_exact_current", "current_source_moves_std_sources")]
 PLUMB_CASES = {"quick": 160, "thorough": 2400}
@@ -46,7 +57,7 @@ CURRENT = ["JanetModel.Stream.Current." + t for t in (
     "current_source_guards_read_slot", "current_source_guards_write_slot", "current_source_registers_dgram_for_write",
     "every_op_completes_or_errors_current")]
 WRAP = "-Wl," + ",".join("--wrap=" + s for s in ("read write send recv sendto recvfrom epoll_ctl epoll_wait waitpid pipe close dup fcntl fcntl64 posix_spawn posix_spawnp "
-                                                "posix_spawn_file_actions_adddup2 posix_spawn_file_actions_addclose").split())
+                                                "posix_spawn_file_actions_adddup2 posix_spawn_file_actions_addclose getsockopt accept4").split())
 QUOTA = {"quick": {"errinj": 30, "stream": 110, "shared-seq": 40, "close": 60, "contend": 24, "dgram": 36, "proc": 30},
          "thorough": {"errinj": 300, "stream": 1500, "shared-seq": 500, "close": 600, "contend": 200, "dgram": 400, "proc": 300}}
 
@@ -421,6 +432,52 @@ def status_correspond(ctx, drv):
     return n, diffs, fails, predicted
 
 
+# ------------------------------------------------------------------------------------------------ socket callbacks of net.c
+def net_checks(ctx, exe, drv, corpus_lines, more):
+    """in-process drive of net_callback_connect / net_callback_accept vs the Lean model (D) and direct expectations (E), plus
+    connection-level scenarios on real sockets (E) -> (evaluations, [(sig, desc, replay)], diffs, stats)"""
+    fails, diffs = [], []
+    stats = {"netdrive_cases": 0, "events_delivered": 0, "kinds": {}, "events": {}, "ended_by": {}, "corpus_cases": len(corpus_lines)}
+    batches = []
+    if corpus_lines:
+        batches.append(("corpus", corpus_lines))
+    batches.append(("generated", None))
+    for name, lines in batches:
+        ok, text, err = netcorr.run_drive(exe, ctx.seed, NETDRIVE_CASES[ctx.tier] * (3 if more else 1), lines)
+        if not ok:
+            fails.append(("netdrive:harness-failed", "c16io --%s did not finish: %s %s" % ("netseq" if lines else "netdrive", text[-300:], err), None))
+            continue
+        cases = netcorr.parse(text)
+        stats["netdrive_cases"] += len(cases)
+        for c in cases:
+            k = "connect" if c["kind"] == "C" else "accept-loop" if c["loop"] else "accept"
+            stats["kinds"][k] = stats["kinds"].get(k, 0) + 1
+            stats["events_delivered"] += len(c["ev"])
+            for tok, obs in c["ev"]:
+                e = netcorr.EVNAME.get(int(tok.split(":")[0]), "?")
+                stats["events"][e] = stats["events"].get(e, 0) + 1
+            last = c["ev"][-1]
+            if "done=1" in last[1]:
+                e = k + ":" + netcorr.EVNAME.get(int(last[0].split(":")[0]), "?")
+                stats["ended_by"][e] = stats["ended_by"].get(e, 0) + 1
+        for sig, desc, c in netcorr.oracle(cases):
+            fails.append((sig, desc, {"kind": "netseq", "cases": [netcorr.case_text(c)], "failure": desc}))
+        if drv:
+            try:
+                outs = ctx.model([netcorr.model_line(c) for c in cases], exe=drv)
+                diffs += netcorr.compare(cases, outs)
+            except Exception as e:   # noqa: BLE001
+                diffs.append({"why": "model driver failed on the socket-callback cases: %s: %s" % (type(e).__name__, e)})
+    try:
+        nconn, cfails, cstats = netcorr.run_conn(exe, ctx.seed)
+    except Exception as e:   # noqa: BLE001
+        nconn, cfails, cstats = 0, [("conn:harness-failed", "connection scenarios could not be run: %s: %s" % (type(e).__name__, e))], {}
+    for sig, desc in cfails:
+        fails.append((sig, desc, {"kind": "conn", "failure": desc, "how": "c16io harness/C16/conn.janet <dir> %d" % ctx.seed}))
+    stats.update(cstats)
+    return stats["netdrive_cases"] + nconn, fails, diffs, stats
+
+
 # ------------------------------------------------------------------------------------------------ exit status / redirection
 def exec_checks(ctx, exe):
     fails = []
@@ -581,8 +638,17 @@ def run(ctx, only=None):
     except ExtractError as e:
         broken.append("translator tools/gen/procstat.py (shape of os.c changed): %s" % e)
         ctx.broken.append(broken[-1])
+    nfacts = None
+    try:
+        ctx.gen("Net.lean", gen_net.render(ctx.build.tree))
+        nfacts = gen_net.extract(ctx.build.tree)
+    except ExtractError as e:
+        broken.append("translator tools/gen/net.py (shape of net.c / janet.h / ev.c changed): %s" % e)
+        ctx.broken.append(broken[-1])
     # (B,C)
     broken += ctx.obligations("JanetModel.Props.C16", THEOREMS)
+    net_broken = ctx.obligations("JanetModel.Stream.NetCurrent", NET_CURRENT)
+    broken += net_broken
     cur_broken = ctx.obligations("JanetModel.Stream.Current", CURRENT)
     broken += cur_broken
     broken += ctx.obligations("JanetModel.Proc.Current", PROC_CURRENT)
@@ -605,6 +671,7 @@ def run(ctx, only=None):
     big = 1000000 if quick else 4 * 1024 * 1024
     jobs = []
     plumb_batches = []
+    netseq_lines = []
     # corpus first: targeted scenarios and minimised past failures
     cdir = os.path.join(VERIF, "corpus", "C16")
     if os.path.isdir(cdir):
@@ -614,6 +681,8 @@ def run(ctx, only=None):
                     j = json.load(f)
                 if j.get("family") == "plumb":
                     plumb_batches.append(j["cases"])
+                elif j.get("family") == "netseq":
+                    netseq_lines += j["cases"]
                 else:
                     jobs.append(("corpus", fn, j))
     for fam, cnt in quota.items():
@@ -660,6 +729,24 @@ def run(ctx, only=None):
             reported.add(sig)
             more = " (+%d more cases of this kind: %s)" % (len(items) - 1, ", ".join(x[0].rsplit(" ", 1)[-1] for x in items[1:9])) if len(items) > 1 else ""
             ctx.violation(sig, {"kind": "exec", "failure": desc, "all_failing_cases_of_this_kind": [x[0] for x in items]}, what=desc + more)
+    # socket callbacks of net.c: in-process drive vs model (D) + direct expectations, real-socket connection scenarios (E)
+    try:
+        nnet, nfails, ndiffs, nstats = net_checks(ctx, exe, drv, netseq_lines, bool(broken)) if not only or only == "net" else (0, [], [], {})
+    except Exception as e:   # noqa: BLE001
+        nnet, nfails, ndiffs, nstats = 0, [("netdrive:harness-failed", "socket-callback cases could not be run: %s: %s" % (type(e).__name__, e), None)], [], {}
+    byclass = {}
+    for sig, desc, rep in nfails:
+        byclass.setdefault(sig, []).append((desc, rep))
+    for sig, items in byclass.items():
+        if sig not in reported:
+            reported.add(sig)
+            desc, rep = items[0]
+            rep = dict(rep or {"kind": "netseq", "cases": []}, all_failing=[d for d, _ in items[:20]], count=len(items))
+            ctx.violation(sig, rep, what=desc[:600] + (" (+%d more cases)" % (len(items) - 1) if len(items) > 1 else ""))
+    if ndiffs:
+        broken.append("correspondence net_callback_connect / net_callback_accept vs Stream.Net model on %d of %d cases, first: %r" % (len(ndiffs), nnet, ndiffs[0]))
+        if not ctx.nviol:
+            ctx.broken.append(broken[-1])
     # descriptor plumbing of os/spawn / os/execute: direct oracle (E) + model correspondence on syscalls and descriptor tables (D)
     npl = PLUMB_CASES[ctx.tier] * (3 if broken and quick else 1)
     gen = plumb.generate(ctx.rng.fork("plumb"), npl)
@@ -733,11 +820,12 @@ def run(ctx, only=None):
     elif broken:
         ctx.say("broken obligations (failing input reported above): " + "; ".join(broken)[:600])
     cov = {
-        "evaluations": nops + nexec + ncorr + nstat + nplumb + nlife,
+        "evaluations": nops + nexec + ncorr + nstat + nplumb + nlife + nnet,
         "distinct_nontrivial": len(results) + nexec + nplumb,
         "rule": "one evaluation = one janet-level stream operation judged by the direct oracle, one exit-status / redirection case, or one "
                 "operation whose intercepted syscall sequence was compared with the Lean model, one os/spawn / os/execute plumbing case, or one "
-                "wait-status word decoded by the compiled proc_get_status and compared; non-trivial = distinct generated scenario / case",
+                "wait-status word decoded by the compiled proc_get_status and compared, or one generated event sequence driven through "
+                "net_callback_connect / net_callback_accept and compared with the model; non-trivial = distinct generated scenario / case",
         "samples": [json.dumps({"family": sc["family"], "streams": sc["streams"], "payload_sizes": sc["payload_sizes"][:4], "faults": sc["faults"]})[:300]
                     for _, _, sc, _, _, _ in results[:4]],
         "scenarios": len(results), "scenario_families": fam_count, "stream_kinds": kinds,
@@ -750,6 +838,7 @@ def run(ctx, only=None):
         "plumbing": pstats, "plumbing_model_diffs": len(pdiffs),
         "life_cycle_sequences": nlife, "life_cycle_ops": lhist, "life_cycle_model_diffs": len(ldiffs),
         "status_words_compared": nstat, "status_word_diffs": len(sdiffs),
+        "socket_callbacks": nstats, "socket_callback_model_diffs": len(ndiffs), "net_source_facts": nfacts,
         "status_decoder_regenerated": (pfacts or {}).get("branches_c"), "waitpid_options": (pfacts or {}).get("waitpidOptions"),
         "source_facts": facts, "broken": broken[:6],
     }
@@ -775,6 +864,20 @@ def replay(ctx, path):
             ctx.violation(sig, {"kind": "plumb", "cases": [case], "failure": desc}, what=desc[:500])
         print(json.dumps(pdiffs, indent=1)[:2000])
         return ctx.finish("proof", {"evaluations": n, "distinct_nontrivial": n, "rule": "replay of plumbing cases", "samples": [plumb.jdn_case(c) for c in r["cases"][:3]]})
+    if r.get("kind") == "netseq" and r.get("cases"):
+        exe = ctx.build.harness("asan", "c16io", [os.path.join(VERIF, "harness/C16/evwrap.c")], extra_ld=[WRAP])
+        ok, text, err = netcorr.run_drive(exe, ctx.seed, 0, r["cases"])
+        print(text[-3000:], err)
+        cases = netcorr.parse(text)
+        for sig, desc, c in netcorr.oracle(cases):
+            ctx.violation(sig, {"kind": "netseq", "cases": [netcorr.case_text(c)], "failure": desc}, what=desc[:600])
+        return ctx.finish("proof", {"evaluations": len(cases), "distinct_nontrivial": len(cases), "rule": "replay of socket-callback event sequences", "samples": r["cases"][:3]})
+    if r.get("kind") == "conn":
+        exe = ctx.build.harness("asan", "c16io", [os.path.join(VERIF, "harness/C16/evwrap.c")], extra_ld=[WRAP])
+        n, cfails, st = netcorr.run_conn(exe, ctx.seed)
+        for sig, desc in cfails:
+            ctx.violation(sig, {"kind": "conn", "failure": desc}, what=desc[:600])
+        return ctx.finish("proof", {"evaluations": n, "distinct_nontrivial": n, "rule": "replay of the connection scenarios", "samples": [json.dumps(st)[:300]]})
     if r.get("kind") != "scenario":
         print(json.dumps(r, indent=1)[:3000])
         return run(ctx)
